@@ -7,7 +7,19 @@ K_SUBNET = {"unit": "subnet", "inject": "elvis-core/src/protocols/arp/subnetting
 
 K_IPTABLE = {"unit": "iptable", "inject": "elvis-core/src/ip_table.rs", "crate": "elvis-core"}
 
+K_MESSAGE = {"unit": "message", "inject": "elvis-core/src/message/slice_range.rs", "crate": "elvis-core"}
+
 PROPS = {
+    "C07": {
+        "units": ["message"],
+        "kani": [K_MESSAGE],
+        "level": "proof",
+        "technique": "Verus contracts on the extracted message.rs / chunk.rs / slice_range.rs functions against the byte-sequence view; Kani full-domain harness for the range conversions",
+        "level_text": "Every mutating Message operation (new_inner, header_inner, concatenate, slice_inner, cut, remove_front) and Chunk::{new,as_slice,len,is_empty} is verified, for all chunk layouts and all arguments, to act on the denoted byte sequence exactly like the corresponding Vec/slice operation, and to preserve the representation invariant; loops are closed by inductive invariants (unbounded).",
+        "level_note": "Trusted: Verus/Z3; assumed specs VecDeque::{front,front_mut}, derive(Clone) on Chunk (vx_chunk_clone); declared rewrites iter_mut->index loop and drain(i..)->truncate(i) in slice_inner. NOT under contract: the generic wrappers new/header/slice (impl Into<..>), the observers iter()/to_vec()/PartialEq/Display (flat_map adapter chain: 'iter() yields exactly the view' is an assumption), From<&str>/From<String>/array From impls of Chunk. Independence of messages sharing storage follows from ownership: no function in the unit has &mut access to Chunk::bytes (Arc<Vec<u8>>), and every contract determines the new view of self / the result only.",
+        "assumptions": ["Message::iter()/to_vec()/== observe exactly the view (not verified: iterator adapter chain)", "no code mutates through Arc<Vec<u8>> (no Arc::get_mut/make_mut in the crate)"],
+        "explanation": "Message operations vs plain byte vectors",
+    },
     "C09": {
         "units": ["subnet", "iptable"],
         "kani": [K_SUBNET, K_IPTABLE],
